@@ -21,7 +21,7 @@ def classify(res):
             if "side condition (syntactic)" in ob:
                 k = "syntactic side condition"
             elif u == "S":
-                k = "bounded lattice"
+                k = "bounded native family"
             elif u == "replay" or ob.startswith("undecided:") or ob.startswith("scenario family"):
                 k = "replay"
             else:
